@@ -33,4 +33,27 @@ CHECKS = {
             {"name": "cli", "test": "TestCLI", "quick": 1500, "thorough": 12000, "shards": 16},
         ],
     },
+    "C20": {
+        "pkg": "c20",
+        "level": "exploration",
+        "level_text": ("Model-based testing of util.Queue: generated and (to a small bound) exhaustively enumerated sequential "
+                       "histories against a slice model, plus generated producer/consumer programs run on real threads under the "
+                       "race detector across GOMAXPROCS 1/2/4/16, checked with a stream oracle, a quiescent-depth oracle and a "
+                       "porcupine linearizability check of the timed history. Concurrency is sampled, not enumerated."),
+        "level_note": ("Trusted: the slice model, porcupine v1.3.0, the Go race detector. Single producer / single consumer as the "
+                       "property states; rare interleavings may not occur in the stress tier."),
+        "technique": "model-based PBT (rapid) + bounded exhaustive enumeration + concurrent stress with linearizability oracle (porcupine), -race",
+        "rule": ("seq: rapid histories (<=40 ops over enq/deq/all/requeue-last/depth) vs slice model, depth compared after every step; "
+                 "enum: every history up to length 5 (quick) / 7 (thorough) over a 6-letter alphabet; conc: generated producer chunk list x "
+                 "consumer program x GOMAXPROCS, 20-60 repetitions each, -race. Non-trivial: seq/enum = a requeue later followed by a "
+                 "successful dequeue; conc = producer and consumer observed mid-program concurrently in >=1 repetition. Distinct = sha1(case)."),
+        "assumptions": ["one producer and one consumer goroutine (the discipline the property states)",
+                        "chunks are non-empty (the channel never enqueues empty chunks)"],
+        "exhaustive_quick": False,
+        "subs": [
+            {"name": "seq", "test": "TestSeq", "quick": 3000, "thorough": 100000, "shards": 8},
+            {"name": "enum", "test": "TestEnum", "quick": None, "thorough": None, "shards": 1, "enum": True},
+            {"name": "conc", "test": "TestConc", "quick": 300, "thorough": 3000, "shards": 8, "race": True},
+        ],
+    },
 }
